@@ -292,10 +292,12 @@ def count_points(items):
 INT_FORMS = ["0", "5", "-3", "+7", "12", "007", "-0"]
 DEC_FORMS = ["5.4", "5.", ".5", "-.5", "+1.5", "1.5e3", ".13E10", "2.5e-3", "0.0", "-0.0", "1.50"]
 BARE_STRINGS = ["Foo", "foo_bar9", "/Path/To/123.txt", "C:\\path\\to\\thing", "A+/-B", "This is a string.", "two words", "5abc", "007x",
-                "1.50abc", "http://example.org/a.b", "caf\u00e9", "a.b.c", "x y z", "..\\rel\\p.csv", "data/file name.csv", "True", "a1:b2"]
+                "1.50abc", "http://example.org/a.b", "caf\u00e9", "a.b.c", "x y z", "..\\rel\\p.csv", "data/file name.csv", "True", "a1:b2",
+                "True Color", "is False", "False/positives.csv", "x True y", "Truecolor", "TrueThreshold value", "\U0001f600 smile", "\u4e2d\u6587 name"]
 QUOTED_SYMBOLS = ["a", " ", '"', "'", "\\", "#", ",", "]", "=", "\u00e9", "\n"]
 QUOTED_NAMED = ["", "C:\\temp\\new.csv", "A+, \n", "He said \"hi\" to 'them'", "tab\there", "x" * 40, "[1, 2]", "key: value", "(a = b)", "\u20ac 5",
-                "ends with backslash\\", "# not a comment", "  padded  ", "5", "1.5", "True"]
+                "ends with backslash\\", "# not a comment", "  padded  ", "5", "1.5", "True",
+                "\U0001f600", "score \U0001f600\U0001d11e", "\u4e2d\u6587", "True Color", "False"]
 
 
 def quoted_strings(maxlen):
